@@ -166,6 +166,8 @@ static int cif_container_create_loop_internal(
     if (temp == NULL) {
         SET_RESULT(CIF_MEMORY_ERROR);
     } else {
+        /* cif_loop_free() will examine this, even if copying the category fails */
+        temp->names = NULL;
 
         temp->category = cif_u_strdup(category);
         if ((category != NULL) && (temp->category == NULL)) {
@@ -174,7 +176,6 @@ static int cif_container_create_loop_internal(
             NESTTX_HANDLING;
 
             TRACELINE;
-            temp->names = NULL;
 
             /* begin a transaction */
             if (BEGIN_NESTTX(cif->db) == SQLITE_OK) {
